@@ -12,7 +12,9 @@ RULE = ("operation groups of 1..4 (quick) / 1..8 (thorough) contents of every cu
         "entrypoints and named ones (1..31 chars); parameters = Micheline trees; fee/counter/limits/amounts from "
         "{0,1,127,128,2^14+-1,2^63+-1,2^64,..2^200}; optional delegate, scripts, ticket fields, rollup messages, "
         "failing_noop, activate_account. Oracle: forged bytes == reference encoder (written from the protocol "
-        "schema), strict reference decode of the forged bytes == normalised group (=> injective), tag table equal. "
+        "schema), strict reference decode of the forged bytes == normalised group (=> injective), tag table equal; an object tier "
+        "forges through OperationGroup.forge(), edits the same object (fee, appended content, branch, operation()) and forges "
+        "again: the bytes must always encode the group as it stands. "
         "Non-trivial: >=2 contents, or non-default entrypoint, or a numeric field >= 2^14. Distinct = distinct group.")
 
 
@@ -37,6 +39,50 @@ def oracle(case):
                         "undecodable")
     if ref_ops.normalize_group(back) != ref_ops.normalize_group(g):
         raise Violation("decode(forge(g)) != g: %r vs %r" % (back, g), case, "roundtrip")
+    check_group_object(case, g)
+
+
+def check_group_object(case, g):
+    """The same bytes through OperationGroup.forge(), also after the group object has been forged once and then edited
+    (contents and branch are public and the library itself rewrites them in place)."""
+    from pytezos.context.impl import ExecutionContext
+    from pytezos.operation.group import OperationGroup
+    muts = case.get("mutations") or []
+    if not muts and not case.get("object"):
+        return
+    cur = copy.deepcopy(g)
+    opg = OperationGroup(context=ExecutionContext(), contents=copy.deepcopy(cur["contents"]), branch=cur["branch"])
+    for step, mut in enumerate([None] + muts):
+        if mut is not None:
+            if mut["op"] == "fee" and "fee" in cur["contents"][0]:
+                cur["contents"][0]["fee"] = opg.contents[0]["fee"] = str(int(cur["contents"][0]["fee"]) + mut["by"])
+            elif mut["op"] == "append":
+                cur["contents"].append(copy.deepcopy(mut["content"]))
+                opg.contents.append(copy.deepcopy(mut["content"]))
+            elif mut["op"] == "branch":
+                cur["branch"] = opg.branch = mut["branch"]
+            elif mut["op"] == "spawn":
+                cur["contents"].append(copy.deepcopy(mut["content"]))
+                opg = opg.operation(copy.deepcopy(mut["content"]))
+            else:
+                continue
+        try:
+            got = bytes.fromhex(opg.forge())
+        except Exception as e:
+            raise Violation("OperationGroup.forge() raised %r after %s" % (e, [m["op"] for m in muts[:step]]), case, "object-forge-raise")
+        want = ref_ops.encode_group(cur)
+        if got != want:
+            raise Violation("OperationGroup.forge() after the edits %s returns bytes that are not the encoding of the group as it "
+                            "stands (decoded fee/contents/branch: %s)" % ([m["op"] for m in muts[:step]], _decoded_brief(got)), case,
+                            "object-forge-stale" if step else "object-forge-mismatch")
+
+
+def _decoded_brief(b):
+    try:
+        d = ref_ops.decode_group(b)
+        return {"branch": d["branch"][:8], "n": len(d["contents"]), "fee0": d["contents"][0].get("fee")}
+    except Exception as e:
+        return "undecodable: %s" % e
 
 
 def _kinds(g):
@@ -90,3 +136,21 @@ def run(h):
     mc = 4 if h.quick else 8
     h.run_given(lambda: st.builds(lambda g: {"group": g}, gen_ops.group(mc)), _prop, h.n(300, 20000),
                 shards=8 if h.quick else 16)
+    h.run_given(lambda: object_cases(mc), _prop, h.n(120, 6000), shards=8 if h.quick else 16, name="objects")
+
+
+@st.composite
+def object_cases(draw, mc):
+    g = draw(gen_ops.group(min(mc, 3)))
+    muts = []
+    for _ in range(draw(st.integers(0, 3))):
+        op = draw(st.sampled_from(["fee", "append", "branch", "spawn"]))
+        m = {"op": op}
+        if op == "fee":
+            m["by"] = draw(st.sampled_from([1, 127, 1217, 2 ** 14]))
+        elif op in ("append", "spawn"):
+            m["content"] = draw(gen_ops.manager_content())
+        else:
+            m["branch"] = draw(gen_ops.branch())
+        muts.append(m)
+    return {"group": g, "mutations": muts, "object": True}
